@@ -4,6 +4,7 @@ import FunsorVerif.Core.XR
 import FunsorVerif.Core.Semiring
 import FunsorVerif.Model.TermParse
 import FunsorVerif.Model.C08
+import FunsorVerif.Gen.C08Tables
 namespace FV.Drv.C08
 open FV FV.C08
 
@@ -47,12 +48,114 @@ def parsePath (s : Sexp) : Option (List (Nat × Nat)) := do
     | Sexp.list [a, b] => do pure ((← a.asNat?), (← b.asNat?))
     | _ => none
 
+/-! ### wire terms as sum-product terms of the model -/
+
+/-- (⊕ name, ⊗ name) of an executable semiring. -/
+def srNames : String → Option (String × String)
+  | "add-mul" => some ("add", "mul")
+  | "max-add" => some ("max", "add")
+  | "min-add" => some ("min", "add")
+  | "max-mul" => some ("max", "mul")
+  | "min-mul" => some ("min", "mul")
+  | "or-and" => some ("or", "and")
+  | _ => none
+
+def opK (nm : String × String) (op : String) : Option OpK :=
+  if op == "null" then some .null else if op == nm.1 then some .add else if op == nm.2 then some .mul else none
+
+def dedup (l : List String) : List String := l.foldl (fun acc x => if acc.contains x then acc else acc ++ [x]) []
+
+def bintVars (vars : List (Name × Dom)) : Option (List (String × Nat)) :=
+  vars.mapM fun (n, d) => match d.dtype, d.shape with
+    | DType.bint k, [] => some (n, k)
+    | _, _ => none
+
+/-- All binders `(name, size)` of the reductions in a term (their sizes complete the size function)
+    and the names bound by substitutions (never summed: size irrelevant). -/
+partial def binders : Term → List (String × Nat)
+  | Term.unary _ a => binders a
+  | Term.binary _ l r => binders l ++ binders r
+  | Term.reduce _ a vars => ((bintVars vars).getD []) ++ binders a
+  | Term.contraction _ _ vars ts => ((bintVars vars).getD []) ++ ts.flatMap binders
+  | Term.subs a σ => σ.map (fun p => (p.1, 1)) ++ binders a ++ σ.flatMap (fun p => binders p.2)
+  | Term.align a _ => binders a
+  | _ => []
+
+def subsArg : Term → Option Arg
+  | Term.var n _ => some (.var n)
+  | Term.num (XR.fin q) _ => if q.den = 1 ∧ 0 ≤ q.num then some (.lit q.num.toNat) else none
+  | _ => none
+
+/-- `UNITS[op]` of the generated table decides which numbers the unit-removal rule drops. -/
+def isUnitOf (nm : String × String) : OpK → XR → Bool
+  | .add, c => FV.Gen.C08.units.lookup nm.1 == some c
+  | .mul, c => FV.Gen.C08.units.lookup nm.2 == some c
+  | .null, _ => false
+
+instance : Inhabited (Ex XR) := ⟨.num XR.nan⟩
+
+/-- Wire term → model term.  Anything the rules treat as opaque becomes a `leaf` whose value is the
+    shared `denote` and whose inputs are the term's free names. -/
+partial def toEx (nm : String × String) (names : List String) (extra : FV.Env) (t : Term) : Ex XR :=
+  let opq : Ex XR := .leaf (dedup t.fv) (termSem t names extra)
+  match t with
+  | Term.num v _ => .num v
+  | Term.binary op l r =>
+    match opK nm op.name with
+    | some k => if k == .null then opq else .binary k (toEx nm names extra l) (toEx nm names extra r)
+    | none => opq
+  | Term.reduce op a vars =>
+    match opK nm op, bintVars vars with
+    | some .add, some vs => .reduce .add (vs.map (·.1)) (toEx nm names extra a)
+    | _, _ => opq
+  | Term.contraction r b vars ts =>
+    match opK nm r, opK nm b, bintVars vars with
+    | some rk, some bk, some vs =>
+      if rk == .mul then opq else .contr rk bk (vs.map (·.1)) (ts.map (toEx nm names extra))
+    | _, _, _ => opq
+  | Term.subs a σ =>
+    match σ.mapM (fun p => (subsArg p.2).map fun x => (p.1, x)) with
+    | some σ' => .subs (toEx nm names extra a) σ'
+    | none => opq
+  | _ => opq
+
+/-- The `unfold` interpretation: unfold rule first, then the normalize cascade (driver-side closure). -/
+partial def unfoldNorm (isU : OpK → XR → Bool) (fuel : Nat) (t : Ex XR) : Ex XR :=
+  if fuel = 0 then t else
+  let t' : Ex XR := match t with
+    | .binary op l r => .binary op (unfoldNorm isU (fuel - 1) l) (unfoldNorm isU (fuel - 1) r)
+    | .reduce op vars e => .reduce op vars (unfoldNorm isU (fuel - 1) e)
+    | .contr red bin vars ts => .contr red bin vars (ts.map (unfoldNorm isU (fuel - 1)))
+    | .subs e σ => .subs (unfoldNorm isU (fuel - 1) e) σ
+    | .unary u e => .unary u (unfoldNorm isU (fuel - 1) e)
+    | t => t
+  match (ruleUnfold t').orElse (fun _ => normRoot isU t') with
+  | none => t'
+  | some t'' => unfoldNorm isU (fuel - 1) t''
+
+def showOpK : OpK → String
+  | .null => "null" | .add => "add" | .mul => "mul"
+
+/-- Root shape of a model term, for the fidelity comparison with funsor's result. -/
+def rootShape : Ex XR → Sexp
+  | .contr r b vars ts => Sexp.list [Sexp.atom "contraction", Sexp.atom (showOpK r), Sexp.atom (showOpK b),
+      Sexp.ofNat vars.length, Sexp.ofNat ts.length]
+  | .leaf _ _ => Sexp.atom "leaf"
+  | .num _ => Sexp.atom "num"
+  | .binary _ _ _ => Sexp.atom "binary"
+  | .reduce _ _ _ => Sexp.atom "reduce"
+  | .subs _ _ => Sexp.atom "subs"
+  | .unary _ _ => Sexp.atom "unary"
+
 /--
   C08 denote TERM (("n" size)*) ENV
         table of the textbook value (shared `denote`)
   C08 optimize SR (("n" size)*)sizes ("n"*)reduced (((“n”*) TERM)*)operands ((a b)*)path (("n" size)*)free ENV
         the model of optimize_contract_finitary_funsor on the given path:
         ok (value v*) (spec v*) (trace (lo hi ("n"*))*) (final "n"*) (ins "n"*)   |  ok malformed-path
+  C08 rewrite (norm|unfold) SR TERM (("n" size)*)sizes (("n" size)*)free ENV
+        the model normaliser / unfolder on the wire term:
+        ok (before v*) (after v*) (root SHAPE) (flat BOOL)
 -/
 def handle (args : List Sexp) : String :=
   match args with
@@ -79,6 +182,24 @@ def handle (args : List Sexp) : String :=
           Sexp.list [Sexp.atom "final", showNames fin],
           Sexp.list [Sexp.atom "ins", showNames res.ins]])
     | _, _, _, _, _, _, _ => "err bad-args"
+  | [Sexp.atom "rewrite", Sexp.atom which, Sexp.atom srn, term, sizes, free, env] =>
+    match SR.ofName? srn, srNames srn, parseTerm term, parseSizes sizes, parseSizes free, parseEnv env with
+    | some sr, some nm, some t, some sizes, some free, some extra =>
+      let o := opsOf sr
+      let base := sizes ++ free.filter (fun p => !(sizes.map (·.1)).contains p.1)
+      let allSizes := base ++ (binders t).filter (fun p => !(base.map (·.1)).contains p.1)
+      let size := sizeFn allSizes
+      let names := dedup (allSizes.map (·.1))
+      let e := toEx nm names extra t
+      let isU := isUnitOf nm
+      let e' := if which == "unfold" then unfoldNorm isU 40 e else norm isU 40 e
+      let pts := points free
+      "ok " ++ toString (Sexp.list [
+        Sexp.list [Sexp.atom "before", showVals (pts.map (e.eval o size))],
+        Sexp.list [Sexp.atom "after", showVals (pts.map (e'.eval o size))],
+        Sexp.list [Sexp.atom "root", rootShape e'],
+        Sexp.list [Sexp.atom "flat", Sexp.ofBool (isFlat isU e')]])
+    | _, _, _, _, _, _ => "err bad-args"
   | _ => "err bad-request"
 
 end FV.Drv.C08
